@@ -321,13 +321,15 @@ inline bool run_inner(Tape& t, Report& rep, Focus focus)
                 }
                 if (l.rfind("info depth ", 0) == 0)
                 {
-                    searched = true;
                     maxDepth = std::max(maxDepth, atoi(l.c_str() + 11));
                     auto sp = l.find(" score mate ");
                     lastMate = sp != std::string::npos;
                     if (lastMate) mateY = atoll(l.c_str() + sp + 12);
                 }
             }
+            // "the answer came from a search" = the search visited nodes (counted by the hook callback); `info` lines are not a
+            // reliable sign: a search that is cut off before its first iteration completes prints none
+            searched = v > 0;
             bool isLegal = std::find_if(legal.begin(), legal.end(), [&](const ref::Move& m) { return m.uci() == best; }) != legal.end();
             // the book: if the CURRENT position's key is in the book named last, the answer must come from it (best policy)
             uint64_t key = ref::polyglot_key(M.cur);
